@@ -338,3 +338,118 @@ def rule_printparse(ctx, prop: str) -> RuleResult:
             )
     res.floor = 2
     return res
+
+
+def rule_precsource(ctx, prop: str) -> RuleResult:
+    """`PrecisionAnalysis` must take the precision of every numeric read and of every window
+    expression from the DECLARATION of the buffer it names (`self.get_type(e.name)`), never
+    from the annotation stored on the node: scheduling keeps the stored annotations current
+    only for uses that name the re-typed buffer directly (a window of a window keeps a stale
+    one).  In `map_e`, each of the cases Read and WindowExpr contains a `get_type` lookup,
+    governed by nothing but the constructor dispatch and an `is_numeric()` test."""
+    from ..boolform import atoms as bf_atoms, to_form
+
+    ix = ctx.ix
+    res = RuleResult("PRECSOURCE")
+    PA_ = "src/exo/backend/prec_analysis.py"
+    f = ix.module(PA_).cls("PrecisionAnalysis").methods.get("map_e")
+    if f is None:
+        raise AnalysisError("anchor vanished: PrecisionAnalysis.map_e")
+    res.analysed.append(f"{PA_}:PrecisionAnalysis.map_e")
+    seen = set()
+    for call in f.body_nodes():
+        if not (isinstance(call, ast.Call) and isinstance(call.func, ast.Attribute) and call.func.attr == "get_type"):
+            continue
+        conds = []
+        kind = None
+        x, p = call, parent(call)
+        while p is not None and p is not f.node:
+            if isinstance(p, ast.If):
+                in_body = any(x is s_ for s_ in p.body)
+                for a in bf_atoms(to_form(p.test)):
+                    if a.startswith("isinstance("):
+                        if in_body and ("LoopIR.Read" in a or "LoopIR.WindowExpr" in a):
+                            kind = "Read" if "LoopIR.Read" in a else "WindowExpr"
+                        continue
+                    conds.append((a, in_body))
+            x, p = p, parent(p)
+        if kind is None:
+            continue
+        seen.add(kind)
+        res.instances += 1
+        res.nontrivial += 1
+        extra = [a for a, pos in conds if not (pos and a.endswith(".is_numeric()"))]
+        ok = not extra
+        res.ob(ok)
+        res.sample(f"map_e case {kind}: declaration lookup governed only by dispatch / is_numeric(): {ok}")
+        if not ok:
+            res.add(
+                Finding("PRECSOURCE", PA_, call.lineno, "PrecisionAnalysis.map_e", f"{kind}:{extra[0][:40]}",
+                        f"in the {kind} case the precision is looked up from the declaration only when `{extra[0]}` holds; otherwise the annotation stored on the node is trusted — "
+                        f"after `y = x[0:8]; z = y[0:4]; set_precision(p, 'x', 'f64')` the stale f32 on `y[0:4]` is believed and an f64 window is passed as `struct exo_win_1f32`")
+            )
+    for kind in ("Read", "WindowExpr"):
+        res.instances += 1
+        ok = kind in seen
+        res.ob(ok)
+        if not ok:
+            res.add(Finding("PRECSOURCE", PA_, f.lineno, "PrecisionAnalysis.map_e", f"{kind}:no-lookup", f"the {kind} case of PrecisionAnalysis.map_e never looks the precision up from the declaration"))
+    res.floor = 4
+    return res
+
+
+def rule_printscope(ctx, prop: str) -> RuleResult:
+    """The printer's name environment has two maps that must be scoped TOGETHER: `env`
+    (symbol -> issued name) and `names` (names reserved in the scope chain).  If `env`
+    outlives the scope while the reservation in `names` is popped, a symbol bound again
+    later gets its cached name without reserving it and a different symbol nested inside
+    receives the same name.  So: `PrintEnv.push` is the only place that builds a child
+    environment, it makes a child of BOTH maps, and every statement printer that opens a
+    scope (For body, If branches) gets its environment from `.push()`."""
+    ix = ctx.ix
+    res = RuleResult("PRINTSCOPE")
+    PP = "src/exo/core/LoopIR_pprint.py"
+    m = ix.module(PP)
+    push = m.cls("PrintEnv").methods.get("push")
+    if push is None:
+        raise AnalysisError("anchor vanished: PrintEnv.push")
+    res.instances += 1
+    res.nontrivial += 1
+    ok = any(
+        isinstance(k, ast.Call) and last_name(k) == "PrintEnv" and len(k.args) == 2
+        and all(isinstance(a, ast.Call) and isinstance(a.func, ast.Attribute) and a.func.attr == "new_child" for a in k.args)
+        and {dotted(a.func.value) for a in k.args} == {"self.env", "self.names"}
+        for k in push.body_nodes()
+    )
+    res.ob(ok)
+    res.sample(f"PrintEnv.push makes a child of both maps: {ok}")
+    if not ok:
+        res.add(Finding("PRINTSCOPE", PP, push.lineno, "PrintEnv.push", "push-both", "PrintEnv.push must return PrintEnv(self.env.new_child(), self.names.new_child()): both maps scoped together"))
+    for f in m.funcs.values():
+        if not isinstance(f.node, ast.FunctionDef) or f is push:
+            continue
+        for k in f.body_nodes():
+            if isinstance(k, ast.Call) and last_name(k) == "PrintEnv" and (k.args or k.keywords):
+                res.instances += 1
+                res.nontrivial += 1
+                res.ob(False)
+                res.add(
+                    Finding("PRINTSCOPE", PP, k.lineno, f.qualname, ast.unparse(k)[:50],
+                            f"{f.qualname} builds a name environment by hand (`{ast.unparse(k)[:60]}`) instead of `env.push()`: the symbol->name map and the reserved names are no longer "
+                            f"scoped together — after fission, a loop iterator bound twice keeps its cached name unreserved and a nested `i` is printed as `i` too")
+                )
+    # scope-opening statement cases use push()
+    for qn in ("_print_stmt", "_print_cursor_stmt"):
+        g = m.funcs.get(qn)
+        if g is None:
+            continue
+        res.analysed.append(f"{PP}:{qn}")
+        n_push = sum(1 for k in g.body_nodes() if isinstance(k, ast.Call) and isinstance(k.func, ast.Attribute) and k.func.attr == "push")
+        res.instances += 1
+        ok = n_push >= 3  # If body, If orelse, For body
+        res.ob(ok)
+        res.sample(f"{qn}: {n_push} scopes opened with push() (If body, If orelse, For body)")
+        if not ok:
+            res.add(Finding("PRINTSCOPE", PP, g.lineno, qn, "scopes", f"{qn} opens {n_push} scopes with env.push(); the bodies of If (both branches) and For each need their own"))
+    res.floor = 2
+    return res
